@@ -1,4 +1,5 @@
 """C04 — scans (find, find/g, whenever, count) are pointwise, complete, position-neutral."""
+import re
 import lib
 import gen
 from c03 import split_list
@@ -8,7 +9,7 @@ RULE = ('each evaluation is one (condition c, start position) pair on one or two
         '@ offsets, scoped references, virtual signals, user functions): (find c), (count c), (find/g c) and (whenever c body) '
         '(bodies accumulate (INDEX value) pairs, or step inside a timeframe) are compared with an explicit walk that evaluates c '
         'at every position (oracle, same interpreter), and all indices are compared before/after; every command also runs on '
-        'the extracted Coq model. distinct = distinct (c, start); non-trivial = c reads a signal')
+        'the extracted Coq model; one scan form (a function body) is also evaluated under two different scopes, and a condition that sets its own scope is scanned. distinct = distinct (c, start); non-trivial = c reads a signal')
 
 
 def xz_trace(rng, n):
@@ -98,6 +99,30 @@ def gen_case(rng, cid, two, per):
             cmds.append(['evalstr', '111', f'(step {t} {-start[t]})' if two else f'(step {-start[t]})'])
         checks.append({'kind': kind, 'base': base, 'wbase': wbase, 'steps': steps, 'refpos': refpos, 'c': c,
                        'start': [start[t] for t in tids]})
+    # the same scan form evaluated again under another scope (a function body is one tree evaluated several times),
+    # and a condition that sets its own scope: ~name must be looked up when the condition is evaluated
+    if not two and not xz:
+        sigs = sorted(infos['DEFAULT']['signals'])
+        by_leaf = {}
+        for nm in sigs:
+            if '.' in nm:
+                sc, leaf = nm.rsplit('.', 1)
+                if re.match(r'^[a-z_]+$', leaf):
+                    by_leaf.setdefault(leaf, []).append(sc)
+        dup = sorted(l for l, scs in by_leaf.items() if len(scs) >= 2)
+        if dup:
+            L = rng.choice(dup)
+            s1, s2 = rng.sample(by_leaf[L], 2)
+            thr = rng.choice([0, 1, 3])
+            c = f'(> ~{L} {thr})'
+            cmds.append(['evalstr', '111', f'(defun scanf [] (find {c}))'])
+            cmds.append(['evalstr', '111', f'(defun scanw [] (do (set [acc (list)]) (whenever {c} (set [acc (+ acc (list INDEX))])) acc))'])
+            base = len(cmds)
+            cmds.append(['evalstr', '111',
+                         f'(list (in-scope "{s1}" (scanf)) (in-scope "{s2}" (scanf)) (in-scope "{s1}" (find {c})) (in-scope "{s2}" (find {c})) '
+                         f'(in-scope "{s1}" (scanw)) (in-scope "{s2}" (scanw)) (in-scope "{s1}" (find (in-scope "{s2}" {c}))) '
+                         f'(in-scope "{s2}" (count {c})) (find (> {s2}.{L} {thr})))'])
+            checks.append({'kind': 'rescope', 'base': base, 'c': c, 'start': [0], 'scopes': (s1, s2)})
     return {'id': cid, 'cmds': cmds, 'checks': checks, 'tids': tids}
 
 
@@ -105,6 +130,28 @@ def oracle(case, impl):
     res = impl.get('results') or []
     two = len(case['tids']) > 1
     for chk in case['checks']:
+        if chk['kind'] == 'rescope':
+            if len(res) <= chk['base']:
+                return f'session stopped at {res[-1:]} (rescope {chk["c"]})'
+            r = res[chk['base']]
+            if not r.startswith('ok'):
+                continue
+            try:
+                p = [lib.canon(x) for x in split_list(r)]
+            except (AssertionError, IndexError) as ex:
+                return f'unparsable observation {ex!r}'
+            s1, s2 = chk['scopes']
+            ref1, ref2 = p[2], p[8]
+            if p[3] != ref2:
+                return f'(in-scope "{s2}" (find {chk["c"]})) = {p[3]} but the full name gives {ref2}'
+            if p[0] != ref1 or p[1] != ref2:
+                return (f'the same (find {chk["c"]}) form evaluated under scope {s1} then {s2} gives {p[0]} / {p[1]}, '
+                        f'evaluated afresh {ref1} / {ref2} (the scan must look names up when it runs)')
+            if p[4] != ref1 or p[5] != ref2:
+                return f'whenever under scope {s1} then {s2} ran its body at {p[4]} / {p[5]}, find gives {ref1} / {ref2}'
+            if p[6] != ref2:
+                return f'(in-scope "{s1}" (find (in-scope "{s2}" {chk["c"]}))) = {p[6]} but the condition holds at {ref2}'
+            continue
         if len(res) <= chk['refpos']:
             return f'session stopped at {res[-1:]} (c={chk["c"]} start={chk["start"]} kind={chk["kind"]})'
         try:
